@@ -47,9 +47,21 @@ def bystanders(rng, n, allow_spin=False, prefix="b"):
     return out
 
 
+STALL_FUNCS = ["register_payload", "register_payload", "adopt", "_setup_payload", "_adopt_services", "start", "shutdown", "stop", "_monitor_payload", "run_payload", "execute", "_submit_payload", "aclose"]
+
+
+def gen_stalls(rng, p=0.3):
+    """Fault plan: 0-2 threads descheduled for a while at the n-th executed line of a runtime function."""
+    if rng.random() >= p:
+        return []
+    return [{"func": rng.choice(STALL_FUNCS), "nth": rng.randint(1, 8), "dur": rng.choice([0.02, 0.08, 0.15, 0.3, 1.0])} for _ in range(rng.choice([1, 1, 2]))]
+
+
 def liveness_bound(h):
     """Generous bound on 'ends': the scenario's own delays plus 5 s of slack (DESIGN 5)."""
-    b = h.knobs.get("accept_delay", 0.25) + 5.0
+    from .sched import S
+
+    b = h.knobs.get("accept_delay", 0.25) + 5.0 + S.stall_total
     for p in h.sc.get("payloads", []):
         b += p.get("cleanup_async", 0)
     for e in h.events:
